@@ -6,6 +6,8 @@ from pbt import ir
 STATE_POOL = ["S", "E", "R", "A", "B", "C", "H", "V", "W", "X", "Y", "Z", "U", "L", "D1", "Sv", "Iu"]
 STATE_POOL_I = ["S", "I", "R", "E", "A", "H"]           # includes the `I` that defeats the C back-end
 # lower-case single letters: the names a hand-written s/i/r model uses, and the names Python code uses for loop variables
+# whole words, as in a hand-written model ('Sus', 'Inf', 'Rec'): a name is not a single character
+STATE_POOL_WORDS = ["Sus", "Inf", "Rec", "Exp", "Hosp", "Vac", "Dead", "Car"]
 STATE_POOL_LC = ["s", "i", "r", "e", "x", "y", "z", "c", "j", "v"]
 PARAM_POOL_LC = ["a", "b", "k", "i", "j", "n", "p", "m"]
 PARAM_POOL = ["beta", "gamma", "mu", "kappa", "sigma", "alpha", "rho", "k1", "k2", "b0", "d0", "N",
@@ -102,7 +104,9 @@ def rate_expr(draw, states, params, derived=(), bounded=False, allow_time=True, 
 def magnitude(draw, params, derived=(), symbolic=True, integer=False, hi=3):
     if integer:
         return {"int": draw(st.integers(1, hi))}
-    c = draw(st.integers(0, 9))
+    c = draw(st.integers(0, 10))
+    if c == 10:
+        return {"int": 0}            # a zero entry of a stoichiometry table written out as a transition that moves nothing
     if c <= 2:
         return {"int": 1}
     if c <= 4:
@@ -119,7 +123,7 @@ def magnitude(draw, params, derived=(), symbolic=True, integer=False, hi=3):
 @st.composite
 def state_decl(draw, n, pool=None, allow_range=True, limits="none"):
     """n states as a declaration list.  limits: 'none' | 'mixed' (generate per-state limits)."""
-    pool = pool or draw(st.sampled_from([STATE_POOL, STATE_POOL, STATE_POOL_I, STATE_POOL_LC]))
+    pool = pool or draw(st.sampled_from([STATE_POOL, STATE_POOL, STATE_POOL_I, STATE_POOL_LC, STATE_POOL_WORDS]))
     decl = []
     use_range = allow_range and n >= 2 and draw(st.integers(0, 4)) == 0
     names = []
@@ -343,6 +347,24 @@ def stochastic_setup(draw, m, x_hi=40, t_max=10.0, target_events=120, hard_event
             a = min(a, b)
         x0.append(draw(st.integers(a, max(a, b))))
     theta = [draw(fl(0.05, 2.0)) for _ in m["params"]]
+    # a slow clock: the same process with every parametric rate nine orders of magnitude smaller (time in nanoseconds' worth
+    # of units) over a correspondingly longer horizon
+    slow = draw(st.sampled_from([1.0, 1.0, 1.0, 1.0, 1.0, 1.0, 1e-9]))
+    if slow != 1.0:
+        # only for models whose every rate scales with the parameters (a literal coefficient would leave one process on the
+        # fast clock and wreck the sizing of the horizon)
+        probe = [v + 1 for v in x0]
+        try:
+            r_fast = ir.reference_float(m, probe, 0.0, theta)["rates"]
+            r_slow = ir.reference_float(m, probe, 0.0, [v * slow for v in theta])["rates"]
+            ok = all(abs(b) <= 1e-6 * abs(a) for a, b in zip(r_fast, r_slow))
+        except Exception:
+            ok = False
+        if ok:
+            theta = [sig(v * slow, 4) for v in theta]
+            t_max = t_max / slow
+        else:
+            slow = 1.0
     t0 = draw(st.sampled_from([0.0, 0.0, 1.0, 2.5, 2020.0]))
     r0 = float(sum(ir.reference_float(m, x0, t0, theta)["rates"]))
     bound = _rate_bound(m, theta, sum(abs(v) for v in x0) + 30)
@@ -352,7 +374,10 @@ def stochastic_setup(draw, m, x_hi=40, t_max=10.0, target_events=120, hard_event
     if bound > 0:
         horizon = min(horizon, hard_events / bound)
     horizon = max(sig(horizon * draw(st.sampled_from([0.3, 1.0, 1.0])), 3), 1e-3)
-    return {"x0": x0, "theta": theta, "t0": t0, "horizon": horizon, "np_seed": draw(st.integers(0, 2 ** 32 - 1))}
+    out = {"x0": x0, "theta": theta, "t0": t0, "horizon": horizon, "np_seed": draw(st.integers(0, 2 ** 32 - 1))}
+    if slow != 1.0:
+        out["clock"] = slow           # fixed leap sizes and literal rates added later have to be put on the same clock
+    return out
 
 
 # ------------------------------------------------------------------ benign ODE models (C02, C06, C07, C16-C18, C20)
@@ -369,7 +394,7 @@ def ode_model(draw, max_states=4, allow_time=True, families=("chain", "epidemic"
     """
     fam = draw(st.sampled_from(list(families)))
     n_s = draw(st.integers(2 if fam != "bounded" else 1, max_states))
-    pool = draw(st.sampled_from([STATE_POOL, STATE_POOL_I, STATE_POOL_LC]))
+    pool = draw(st.sampled_from([STATE_POOL, STATE_POOL_I, STATE_POOL_LC, STATE_POOL_WORDS]))
     states = draw(st.lists(st.sampled_from(pool), min_size=n_s, max_size=n_s, unique=True))
     n_p = draw(st.integers(min_params, 4))
     params = draw(st.lists(st.sampled_from([p for p in param_pool(states) if p != "N"]), min_size=n_p, max_size=n_p, unique=True))
